@@ -25,6 +25,7 @@ type ModSets struct {
 	impls  map[string][]*ssa.Function // iface method id -> implementations
 	fvals  map[string][]*ssa.Function // signature string -> functions used as values
 	fsmCBs []*ssa.Function
+	framed map[*ssa.Function]bool // effect taken from the contract's assigns clause
 }
 
 type effect struct {
@@ -66,11 +67,10 @@ func inModule(fn *ssa.Function) bool {
 	return strings.HasPrefix(p.Pkg.Path(), modulePath)
 }
 
-func modsetAnalysis(w *World) *ModSets {
+func modsetAnalysis(w *World, cs *Contracts) *ModSets {
 	m := &ModSets{w: w, eff: map[*ssa.Function]*effect{}, direct: map[*ssa.Function]*effect{}, calls: map[*ssa.Function][]*ssa.Function{},
-		impls: map[string][]*ssa.Function{}, fvals: map[string][]*ssa.Function{}}
-	m.namer = newVC(w, &Contracts{Funcs: map[string]*FuncSpec{}, Specs: map[string]*SpecFunc{}, TypeInvs: map[string]*TypeInv{}, Chains: map[string]string{}}, nil, nil,
-		&FuncSpec{Modes: map[string]string{}, Loops: map[int]*LoopSpec{}})
+		impls: map[string][]*ssa.Function{}, fvals: map[string][]*ssa.Function{}, framed: map[*ssa.Function]bool{}}
+	m.namer = newVC(w, cs, nil, nil, &FuncSpec{Modes: map[string]string{}, Loops: map[int]*LoopSpec{}})
 	var fns []*ssa.Function
 	seen := map[*ssa.Function]bool{}
 	var addFn func(f *ssa.Function)
@@ -145,6 +145,27 @@ func modsetAnalysis(w *World) *ModSets {
 	}
 	for _, f := range fns {
 		d := newEffect()
+		if spec := cs.Funcs[funcKey(f)]; spec != nil && spec.HasAssigns && !hasAnyTarget(spec) {
+			// a function under contract (verified or assumed) with a frame: its effect is its assigns clause
+			for _, t := range spec.Assigns {
+				for comp, srt := range m.namer.targetComps(f, t) {
+					d.comps[comp] = srt
+				}
+			}
+			m.direct[f] = d
+			e := newEffect()
+			e.add(d)
+			m.eff[f] = e
+			m.framed[f] = true
+			// still record the call edges (call-graph obligations use them)
+			scratch := newEffect()
+			for _, b := range f.Blocks {
+				for _, ins := range b.Instrs {
+					m.instrEffect(f, ins, scratch)
+				}
+			}
+			continue
+		}
 		for _, b := range f.Blocks {
 			for _, ins := range b.Instrs {
 				m.instrEffect(f, ins, d)
@@ -159,6 +180,9 @@ func modsetAnalysis(w *World) *ModSets {
 	for changed := true; changed; {
 		changed = false
 		for _, f := range fns {
+			if m.framed[f] {
+				continue
+			}
 			e := m.eff[f]
 			for _, c := range m.calls[f] {
 				if ce := m.eff[c]; ce != nil {
@@ -466,4 +490,45 @@ func (m *ModSets) reachPath(roots []string, target string) (path []string, missi
 		}
 	}
 	return nil, ""
+}
+
+func hasAnyTarget(spec *FuncSpec) bool {
+	for _, t := range spec.Assigns {
+		if t.Kind == "any" {
+			return true
+		}
+	}
+	return false
+}
+
+// otherCallers lists module functions (non-test) with a static call of target that are not in the allowed set.
+func (m *ModSets) otherCallers(target string, allowed []string) (extra []string, missing string) {
+	tgt := m.w.lookupFunc(target)
+	if tgt == nil {
+		return nil, target
+	}
+	ok := map[*ssa.Function]bool{}
+	for _, a := range allowed {
+		f := m.w.lookupFunc(a)
+		if f == nil {
+			return nil, a
+		}
+		ok[f] = true
+	}
+	for f := range m.direct {
+		if ok[f] {
+			continue
+		}
+		for _, b := range f.Blocks {
+			for _, ins := range b.Instrs {
+				if c, isCall := ins.(ssa.CallInstruction); isCall {
+					if c.Common().StaticCallee() == tgt {
+						extra = append(extra, funcKey(f))
+					}
+				}
+			}
+		}
+	}
+	sort.Strings(extra)
+	return extra, ""
 }
